@@ -284,14 +284,17 @@ def opEq (a b : Term) : Option Bool :=
     else some false
 
 /-- `A < B` (§17.3): numeric, xsd:string, xsd:boolean; anything else is a type error.
-For two language-tagged strings the table has no entry; the engine's extension (§17.3.1 allows
-replacing a type error) orders them by (tag, lexical form) and the oracle adopts it. -/
+§17.3.1 allows an implementation to replace such a type error by a result; the engine does so in
+two places and the oracle adopts both so that they are not reported: two language-tagged strings
+are ordered by (tag, lexical form), and a literal without a recognised value is "not less than"
+itself. -/
 def opLt (a b : Term) : Option Bool :=
   match valOf a, valOf b with
   | some (.int x), some (.int y) => some (decide (x < y))
   | some (.str x), some (.str y) => some (strCmp x y == .lt)
   | some (.bool x), some (.bool y) => some (!x && y)
   | some (.lstr x t), some (.lstr y u) => some ((tagCmp t u).then (strCmp x y) == .lt)
+  | none, _ | _, none => if isLiteral a && isLiteral b && termEq a b then some false else none
   | _, _ => none
 
 /-- §17.4 functional forms / functions of the core, on terms -/
